@@ -118,7 +118,9 @@ Remove(cfg, s, k) ==
   ELSE LET gone == SelectSeq(s.reg, LAMBDA x : Matches(cfg, x, k)) IN
        [st |-> [s EXCEPT !.reg = SelectSeq(@, LAMBDA x : ~Matches(cfg, x, k))],
         \* which objects were removed (as a set: the order of the returned slice is not part of the property)
-        res |-> [ok |-> Len(gone) > 0, removed |-> [o \in ObjIds(cfg) |-> IsReg(s, o) /\ Matches(cfg, o, k)]]]
+        \* and how many tokens of each were out at that moment (what the partition's own predicate can see while it is asked)
+        res |-> [ok |-> Len(gone) > 0, removed |-> [o \in ObjIds(cfg) |-> IsReg(s, o) /\ Matches(cfg, o, k)],
+                 counts |-> [o \in ObjIds(cfg) |-> IF IsReg(s, o) /\ Matches(cfg, o, k) THEN s.ob[o] ELSE 0]]]
 
 Apply(cfg, s, op) ==
   CASE op.op = "try" -> Try(cfg, s, op.key)
